@@ -5,7 +5,18 @@ from checks import kvgen as G, c01
 
 LEVEL = "proof"
 MODULE = "IwModel.Props.C02"
-THEOREMS = []
+THEOREMS = [
+    "IwModel.C02.scan_next",
+    "IwModel.C02.scan_prev",
+    "IwModel.C02.scan_next_fuel",
+    "IwModel.C02.seek_eq_spec",
+    "IwModel.C02.seek_ge_spec",
+    "IwModel.C02.seek_lands",
+    "IwModel.C02.cursor_set_spec",
+    "IwModel.C02.cursor_del_spec",
+    "IwModel.C02.cursor_write_nothing",
+    "IwModel.C02.position_local",
+]
 MANIFEST = dict(
     level="proof",
     text=("Lean 4 theorems over the cursor state machine of the node-level KV model (scan order, EQ/GE as the code computes them, "
